@@ -10,7 +10,7 @@ class WC12(WeaverUnit):
 
 class C12(Property):
     id = "C12"
-    gen_targets = ["Funfit", "Kernels"]
+    gen_targets = ["Funfit", "Kernels", "ProcessGlue"]
     rule = "series of 2..40 points (uniform / non-uniform dyadic / integer dtype), r in 0..12, all factor pairs a*b <= 12; distinct = distinct (x, y, r)"
 
     def units(self, tier):
